@@ -64,7 +64,24 @@ fn supervise(cmd: &str, tier: Tier, seed: u64) -> i32 {
                 if t0.elapsed() > limit {
                     let _ = ch.kill();
                     let _ = ch.wait();
+                    // violations found before the guard fired were left on disk by the workers
+                    let found = std::fs::read_to_string(driver::inflight_dir(pid).join("found.jsonl")).unwrap_or_default();
                     let _ = std::fs::remove_dir_all(driver::inflight_dir(pid));
+                    let mut seen = std::collections::BTreeSet::new();
+                    for line in found.lines() {
+                        let Ok(d) = serde_json::from_str::<serde_json::Value>(line) else { continue };
+                        let key = d["key"].as_str().unwrap_or("?").to_string();
+                        if !seen.insert(key.clone()) || seen.len() > 12 {
+                            continue;
+                        }
+                        let v = driver::Violation { key, class: d["class"].as_str().unwrap_or("?").into(), detail: d["detail"].as_str().unwrap_or("").into(), replay: d["replay"].clone() };
+                        let path = driver::write_replay(cmd, seed, d["run"].as_u64().unwrap_or(0) as usize, &v);
+                        println!("VIOLATION property={} replay={}", cmd, path);
+                        println!("  key={} class={} (reported by the supervisor: the batch exceeded its wall-clock limit of {} s) {}", v.key, v.class, limit.as_secs(), v.detail);
+                    }
+                    if !seen.is_empty() {
+                        return 1;
+                    }
                     eprintln!("harness error: {} {} exceeded its wall-clock limit of {} s and was stopped", cmd, tier.name(), limit.as_secs());
                     return 2;
                 }
